@@ -799,3 +799,35 @@ fn infback_dist() {
     assert!(matches!(rc, ReturnCode::StreamEnd | ReturnCode::DataError | ReturnCode::BufError));
     core::mem::forget(strm);
 }
+
+// ---- inflateBack: 8 concrete prefix bytes (final fixed block, six 9-bit literals, length-3 code), 2 symbolic bytes = distance
+#[kani::proof]
+#[kani::unwind(12)]
+#[kani::stub(crate::inflate::inftrees::inflate_table, stub_table)]
+#[kani::stub(core::fmt::write, stub_fmt_write)]
+#[kani::stub(core::panicking::panic_nounwind, stub_pn)]
+#[kani::stub(core::panicking::panic_nounwind_fmt, stub_pnf)]
+#[kani::stub(crate::inflate::infback::inflate_fast_back, stub_fast_back)]
+fn infback_prefix() {
+    let s0: u8 = kani::any();
+    let s1: u8 = kani::any();
+    let input: [u8; 10] = [0x9b, 0x30, 0x61, 0xc2, 0x84, 0x9, 0x13, 0x80, s0, s1];
+    let mut win = [0u8; 256];
+    let mut state = State::new(&[], Writer::new(&mut []));
+    state.window = unsafe { Window::from_raw_parts(win.as_mut_ptr(), 256) };
+    state.wbits = 8;
+    state.flags.update(Flags::SANE, true);
+    let mut desc = InDesc { ptr: input.as_ptr(), len: 10, given: false };
+    let mut strm = InflateStream {
+        next_in: core::ptr::null_mut(), avail_in: 0, total_in: 0,
+        next_out: core::ptr::null_mut(), avail_out: 0, total_out: 0,
+        msg: core::ptr::null_mut(), state: &mut state,
+        alloc: Allocator { zalloc: za, zfree: zf, opaque: core::ptr::null_mut(), _marker: PhantomData },
+        data_type: 0, adler: 0, reserved: 0,
+    };
+    let rc = unsafe { back(&mut strm, in_cb, &mut desc as *mut _ as *mut core::ffi::c_void, out_cb, core::ptr::null_mut()) };
+    assert!(matches!(rc, ReturnCode::StreamEnd | ReturnCode::DataError | ReturnCode::BufError));
+    core::mem::forget(strm);
+}
+
+unsafe fn stub_fast_back(_s: &mut State) { panic!("inflate_fast_back reached") }
